@@ -24,7 +24,7 @@ RULE = ('Hypothesis **kern scores of C07\'s domain (kern-only, 1-3 spines, pick-
         'deep snapshot and six exports equal those of loads(joined text); one (from, to) pair per fragment; consecutive '
         'pairs (next from = to + 1); first from in {0, 1}; last to == measures_count(); the data lines of '
         'dumps(doc, from_measure=from, to_measure=to) are exactly the exported lines of the rows of fragment i (row '
-        'alignment from the model).  Scores without any measure (header, interpretations, terminator) are concatenated as a single fragment: one pair, to == 0, exportable.  An evaluation is one (document, cut set, convention); non-trivial: >=3 fragments and '
+        'alignment from the model).  Scores without any measure (header, interpretations, terminator) are concatenated as a single fragment: one pair, to == 0, exportable.  The repository\'s own sample scores (up to 9 kB) are cut in front of drawn barline lines as well (document equality, pair arithmetic, pair size == barline lines of the fragment, partition of the data lines).  An evaluation is one (document, cut set, convention); non-trivial: >=3 fragments and '
         'a fragment with >=2 measures.')
 ASSUMPTIONS = ['measure model of C07 (kv/measures.py)', 'a "data line" is a line that is neither an interpretation nor a barline',
                'a first fragment that contains no measure at all (preamble only) makes concat raise: known finding '
@@ -197,6 +197,67 @@ def check_measureless(case):
     return Result(nontrivial=len(case['doc']['rows']) > 2, evals=evals, classes=['measureless'], sample={'document': text})
 
 
+def check_real(case):
+    """a sample score of the repository cut in front of drawn barline lines of its text: concat == import of the joined text,
+    one pair per fragment, consecutive, the last one ends at the measure count, fragment i >= 1 gets as many measures as it has
+    barline lines, and the pairs' excerpts partition the data lines of the whole export"""
+    from .. import realscores as RS
+    with open(RS.path(case['real']), 'rb') as f:
+        rawb = f.read()
+    try:
+        text = rawb.decode('utf-8').replace('\r\n', '\n')
+    except UnicodeDecodeError:
+        return Result(classes=['real-score-not-utf8'])
+    try:
+        rdoc0, errs = kp.loads(text)
+    except Exception:  # noqa
+        return Result(classes=['real-score-not-importable'])
+    if errs or '**kern' not in kp.spine_types(rdoc0):
+        return Result(classes=['real-score-with-import-errors'])
+    lines = [l for l in text.split('\n') if l != '']
+    bars = [i for i, l in enumerate(lines) if l.startswith('=') and i > 0]
+    M = len(rdoc0.measure_start_tree_stages)
+    if len(bars) < 2 or M > 80:
+        return Result(classes=['real-score-too-few-barlines' if len(bars) < 2 else 'real-score-too-long'])
+    cut_idx = sorted({bars[x % len(bars)] for x, _ in case['raw'][:3]})
+    cuts = [0] + cut_idx + [len(lines)]
+    frags = ['\n'.join(lines[cuts[i]:cuts[i + 1]]) for i in range(len(cuts) - 1)]
+    tag = f'{case["real"]}, cuts before lines {cut_idx}'
+    try:
+        cdoc, pairs = kp.concat(frags, separator='\n')
+    except Exception as e:  # noqa
+        raise Bad('concat-raised', f'concat raised {type(e).__name__}: {e} ({tag})')
+    rdoc, _ = kp.loads('\n' + '\n'.join(frags))
+    d = SN.first_difference(SN.snapshot(rdoc), SN.snapshot(cdoc))
+    if d:
+        raise Bad('document-differs', f'concat document differs from loads(joined): {d} ({tag})')
+    if len(pairs) != len(frags):
+        raise Bad('pair-count', f'{len(pairs)} pairs for {len(frags)} fragments ({tag})')
+    if pairs[-1][1] != cdoc.measures_count() or pairs[0][0] not in (0, 1) or any(pairs[i + 1][0] != pairs[i][1] + 1 for i in range(len(pairs) - 1)):
+        raise Bad('not-consecutive', f'pairs {pairs}, measures_count() = {cdoc.measures_count()} ({tag})')
+    for i in range(1, len(frags)):
+        nb = sum(1 for l in lines[cuts[i]:cuts[i + 1]] if l.startswith('='))
+        if pairs[i][1] - pairs[i][0] + 1 != nb:
+            raise Bad('pair-size', f'fragment {i} has {nb} barline lines and got the pair {pairs[i]} of {pairs} ({tag})')
+
+    def data(t):
+        return [l for l in t.split('\n') if l and l[0] not in '*=' and not l.startswith('!!')]
+    full = kp.dumps(cdoc)
+    flines = [l for l in full.split('\n') if l]
+    B = RS.measure_lines(flines)
+    got = []
+    for lo, hi in pairs:
+        try:
+            got += data(kp.dumps(cdoc, from_measure=lo, to_measure=hi))
+        except Exception as e:  # noqa
+            raise Bad('pair-export-raised', f'dumps(from_measure={lo}, to_measure={hi}) raised {e!r} ({tag}, pairs {pairs})')
+    want = data('\n'.join(flines[(B[0] if B and pairs[0][0] == 1 else 0):]))
+    if got != want:
+        raise Bad('pair-lines', f'the excerpts of the pairs {pairs} hold {len(got)} data lines, the whole export {len(want)} ({tag})')
+    return Result(nontrivial=len(frags) >= 3, evals=1 + len(pairs), classes=['real-score', f'fragments={len(frags)}'], sample={'file': case['real'], 'cuts': cut_idx},
+                  key=['real', case['real'], cut_idx])
+
+
 def f_nomeasure(case, p):
     """KF-C19-NOMEASURE: the first fragment holds no measure at all (preamble only), so measures_count() of the first
     prefix raises Exception('No measures found') inside concat"""
@@ -208,6 +269,10 @@ FINDINGS = {'KF-C19-NOMEASURE': f_nomeasure}
 
 
 def run(ctx):
+    from .. import realscores as RS
+    rc = RS.cases(max_bytes=9000, nranges=3)
+    if rc is not None:
+        ctx.run_hypothesis(rc, check_real, max_examples=max(3, (16 if ctx.quick else 200) // ctx.nshards), salt=9, label='real-scores')
     from .c07 import measureless_cases
     ctx.run_hypothesis(measureless_cases(), check_measureless, max_examples=max(4, (16 if ctx.quick else 160) // ctx.nshards), salt=3, label='measureless')
     if ctx.quick:
@@ -217,6 +282,8 @@ def run(ctx):
 
 
 def replay(case):
+    if 'real' in case:
+        return check_real(case)
     if case['doc'].get('profile') == 'measureless':
         return check_measureless(case)
     return check_case(case, True)
